@@ -78,9 +78,11 @@ class Unorderable:
     def __repr__(self): return "Unorderable(%d)" % self.serial
 
 class Val:
-    __slots__ = ("serial", "__weakref__")
-    def __init__(self, serial): self.serial = serial
+    __slots__ = ("serial", "owner", "__weakref__")
+    def __init__(self, serial): self.serial = serial; self.owner = None
     def __repr__(self): return "Val(%d)" % self.serial
+
+CYC = 800000            # value serials from here on: objects that refer back to the tree (a reference cycle through a slot)
 
 class RevInt(int):
     """an int SUBCLASS with its own (reversed) total order: must go through rich comparison, not the exact-int fast path"""
@@ -116,6 +118,8 @@ MAKE = {
     "custom": lambda o: CKey(o),
     "bigint": lambda o: (o + OFF) * (2 ** 70),       # beyond C long: the int fast path falls through to rich compare
     "mixint": lambda o: (o + OFF + 0) if o < 0 else (2 ** 63 + o),   # some keys fit a C long, some do not
+    "ustr": lambda o: "\u043a\u043b\u044e\u0447%015d" % (o + OFF),   # exact str outside Latin-1 (2-byte kind), long common prefix
+    "astr": lambda o: "\U0001d400%015d" % (o + OFF),               # exact str with an astral character (4-byte kind)
     "subint": lambda o: RevInt(OFF - o),              # int subclass, reversed order: model order o <-> raw value OFF - o
     "substr": _ci,                                    # str subclass, case-insensitive order
 }
@@ -124,6 +128,8 @@ def ord_of(flav, k):
     if flav == "str": return int(k) - OFF
     if flav == "custom": return k.v
     if flav == "mixint": return (k - 2 ** 63) if k >= 2 ** 63 else (k - OFF)
+    if flav == "ustr": return int(k[4:]) - OFF
+    if flav == "astr": return int(k[1:]) - OFF
     if flav == "subint": return OFF - int(k)
     if flav == "substr": return int("".join(str("abcdefghij".index(c)) for c in str(k).lower())) - OFF
     return k // (2 ** 70) - OFF
@@ -162,6 +168,7 @@ class Exec:
         self.flav = "int"; self.mode = "type"
         self.keys = {}      # serial -> key object
         self.vals = {}      # serial -> Val
+        self.cyc = {}       # serial -> weakref of a value object that points back at the tree; the harness keeps no strong reference
         self.base = {}      # id-free baseline refcounts: ("k", serial) / ("v", serial) -> count
         self.iters = {}
         self.opno = 0
@@ -184,6 +191,13 @@ class Exec:
     def val(self, tok):
         ser = int(tok)
         if ser == 0: return None
+        if ser >= CYC:
+            v = self.cyc[ser]() if ser in self.cyc else None
+            if v is None:
+                v = Val(ser); v.owner = self.t
+                self.cyc[ser] = weakref.ref(v)
+                self.stats["cyclic_values"] = self.stats.get("cyclic_values", 0) + 1
+            return v
         if ser not in self.vals:
             v = Val(ser)
             self.vals[ser] = v
@@ -197,7 +211,7 @@ class Exec:
     def vser(self, v): return 0 if v is None else v.serial
     def same(self, got, want):
         """got: list of (key obj, value obj); want: list of (kser, vser)"""
-        return len(got) == len(want) and all(g[0] is self.keys.get(w[0]) and self.vser(g[1]) == w[1] and (g[1] is None or g[1] is self.vals.get(w[1])) for g, w in zip(got, want))
+        return len(got) == len(want) and all(g[0] is self.keys.get(w[0]) and self.vser(g[1]) == w[1] and (g[1] is None or g[1] is (self.cyc[w[1]]() if w[1] >= CYC and w[1] in self.cyc else self.vals.get(w[1]))) for g, w in zip(got, want))
     def fmtk(self, k): return "%d#%d" % (ord_of(self.flav, k), self.kser(k))
     def fmtv(self, v): return "0" if v is None else str(v.serial)
     # ---- structure
@@ -310,6 +324,12 @@ class Exec:
         gc.collect()
         self.stats["destroys"] += 1
         self.audit(destroyed=True)
+        # a value that pointed back at the tree formed a reference cycle through a slot: with the caller's references
+        # gone, the collector must have found it through tp_traverse and reclaimed tree and value
+        alive = sorted(ser for ser, wr in self.cyc.items() if wr() is not None)
+        if alive:
+            self.fail("C13", "after destroy: %d value object(s) in a reference cycle with the tree were never reclaimed (serials %s)" % (len(alive), alive[:5]))
+        self.cyc.clear()
     def make(self, cap):
         cls = {"type": self.ext.BPlusTree, "subclass": self.Sub, "wrapper": self.pkg.BPlusTreeMap}[self.mode]
         return cls(capacity=cap)
@@ -506,9 +526,13 @@ class Exec:
             # independence: mutating the original must not change the copy
             before = [(id(k), id(v)) for k, v in c.items()]
             if d:
-                mo = min(d); k0 = self.keys[d[mo][0]]; t[k0] = None; t[k0] = self.vals.get(d[mo][1]); k0 = None
+                mo = min(d); k0 = self.keys[d[mo][0]]; t[k0] = None; t[k0] = (self.cyc[d[mo][1]]() if d[mo][1] >= CYC and d[mo][1] in self.cyc else self.vals.get(d[mo][1])); k0 = None
             if [(id(k), id(v)) for k, v in c.items()] != before: self.fail("C12", "copy changed when the original was mutated")
             self.iters.clear()
+            for wr in self.cyc.values():      # the back-references follow the map the case continues with
+                cv = wr()
+                if cv is not None: cv.owner = c
+                cv = None
             self.t = c; t = None; c = None; k = None; v = None
             gc.collect()
             self.need_after = True; return "ok"
@@ -541,7 +565,7 @@ class Exec:
 # ---------------------------------------------------------------- generators
 def gen_case(r, n, kind):
     mode = r.pick(["type", "subclass", "wrapper", "wrapper"])
-    flav = r.pick(["int", "int", "str", "custom", "bigint", "mixint", "subint", "substr"])
+    flav = r.pick(["int", "int", "str", "custom", "bigint", "mixint", "subint", "substr", "ustr", "astr"])
     yield "cfg mode " + mode
     yield "cfg flavour " + flav
     caps = [4, 4, 4, 5, 5, 6, 7, 8, 9, 16, 33, 64, 128, 4 + r.below(40)]
@@ -563,6 +587,7 @@ def gen_case(r, n, kind):
     def val(o=None):
         if o is not None and shadow.get(o) not in (None, 1) and r.chance(20): return str(shadow[o])   # the object already stored under this key
         if r.chance(5): return "0"
+        if r.chance(4): return str(800000 + r.below(5000))      # an object that refers back to the tree
         vser[0] += 1; return str(vser[0])
     grow = True
     iters = []
